@@ -297,8 +297,11 @@ class Gen:
         if not self.crates:
             return self.create()
         k = r.random()
-        if k < 0.45:
+        if k < 0.38:
             self.ops.append("addtrack %s %s" % (self.anyc(), r.choice(self.tracks)))
+        elif k < 0.45:
+            # other software adds an entry for a track of ANOTHER database with the same numeric id
+            self.ops.append("addforeign %s %s %d" % (self.anyc(), r.choice(self.tracks), r.choice([1, 1, 2])))
         elif k < 0.5:
             self.ops.append("addtrackid %s %d" % (self.anyc(), r.choice([0, -1, 99, 1, 2, 3, 7])))
         elif k < 0.75:
